@@ -195,8 +195,8 @@ func (r *R) state(ctx sdk.Context) string {
 var (
 	id101     = "z" + strings.Repeat("a/B9", 25)       // 101 characters: the longest legal id
 	id102     = "z" + strings.Repeat("a/B9", 25) + "x" // one too long
-	classPool = []string{"cla", "clb/x9", "clcC", "kk7", id101}
-	tokPool   = []string{"t0a", "t1/b", "t2C", "t3x", "t4y", "t5z", "abc", id101}
+	classPool = []string{"cla", "clax", "clb/x9", "clcC", "kk7", id101} // "clax" extends "cla": key-prefix collisions
+	tokPool   = []string{"t0a", "t0ab", "t1/b", "t2C", "t3x", "t4y", "t5z", "abc", id101}
 	// ids that ValidateBasic must refuse (or, for tibc-, accept syntactically)
 	badIds = []string{"-", "ab", "a", id102, "Abc", "1bc", "a-bc", "ab_c", "ab:c", "ab.c", "abé", "ab#", "/ab", "aB", "tibc-xyz", "tibc-", "ibc/abc"}
 	// well-formed ids that IssueDenom refuses as reserved
